@@ -364,7 +364,7 @@ def run_language(shard, tier):
     regex = build_regex(b)
     R = rx.search_language(regex)           # RegexNamedArgumentParser.parse/validate use re.search
     Rm = rx.match_language(regex)           # ArgSpec.validate uses re.match
-    n_val = _validate_translator(t, b, regex, R, Rm, 20 if tier == "quick" else 200)
+    n_val = _validate_translator(t, b, regex, R, Rm, 12 if tier == "quick" else 200)
     sp = spec(b)
     s = z3.String("s")
     fl = _flags(b)
@@ -550,7 +550,7 @@ def run_fidelity(shard, tier):
     regex = build_regex(b)
     R = rx.search_language(regex)
     sp = spec(b)
-    per_shape = 2 if tier == "quick" else 6
+    per_shape = 1 if tier == "quick" else 6
     s = z3.String("s")
     members = []
     base = [z3.InRe(s, R), z3.InRe(s, sp["lmax"])]
@@ -766,7 +766,7 @@ OBLIGATIONS = [
         name="capture_fidelity", kind="z3", run=run_fidelity, replay=replay_fidelity, shards=_fidelity_shards, decides="concrete", encoded=_ENC
         + ["openpectus.lang.exec.uod:RegexNamedArgumentParser.parse"],
         symbolic="members of regex & documented language generated by z3 per boundary shape (sign, leading/trailing '.', 0/1/3 blanks, each unit, single/list options)",
-        bounds={"quick": "6 unit lists (RegexNumber), one RegexNumberOptional, one int_only/non_negative, 9 option-list pairs, RegexText; 2 distinct members per shape and unit (14 shapes)", "thorough": "all 15 unit lists x 3 builder variants, 12 option-list pairs; 6 distinct members per shape and unit"},
+        bounds={"quick": "6 unit lists (RegexNumber), one RegexNumberOptional, one int_only/non_negative, 9 option-list pairs, RegexText; 1 member per shape and unit (14 shapes) + 4 free members", "thorough": "all 15 unit lists x 3 builder variants, 12 option-list pairs; 6 distinct members per shape and unit"},
         assumptions=["decision per member is a concrete run of the real RegexNamedArgumentParser.parse (Python re); the solver only chooses the inputs",
                      "any decomposition blanks+number+blanks+unit+blanks of the argument that equals the delivered groups is accepted"]),
     Obligation(
@@ -781,3 +781,12 @@ OBLIGATIONS = [
         encoded=["openpectus.lang.exec.regex:RegexCategorical"], symbolic="none: the examples in RegexCategorical.__doc__",
         bounds={"quick": "all examples in the docstring", "thorough": "all examples in the docstring"}, assumptions=[]),
 ]
+
+
+LEVEL = "proof"
+MANIFEST = {
+    "level": "proof",
+    "text": "For every unit / option list of a catalogue (plain, '/', '%', parentheses, '|', '.', '*', '?', brackets, backslash, non-ASCII, prefixes of one another; up to 4 entries quick / 6 thorough) the regular expression returned by the real RegexNumber / RegexNumberOptional / RegexCategorical / RegexText is translated from its sre parse tree into a z3 regular expression (language of re.search, and of re.match) and z3 decides over ALL strings (unbounded length, code points up to U+2FFFF) that L_min <= L(regex) <= L_max for the minimal and maximal reading of the documented language; unsat = proof for that list. Capture fidelity and the introspection functions are decided by concrete runs of the real parser on solver-generated members / probe lists (decides=concrete).",
+    "note": "Trusted: z3 (sat and selected unsat verdicts cross-checked with cvc5), the sre->z3 translator symx/rx.py (differentially validated against Python re in every shard of every run), the reference languages written from the property statement. The claim is per catalogued list, not for all lists; option strings containing '+' and strings with code points above U+2FFFF are outside the claim. Sub-obligations capture_fidelity, introspection and docstring_examples are concrete (labelled in the evidence).",
+    "technique": "direct z3 regular-expression inclusion queries over an encoding extracted from the live regex objects at run time; witnesses replayed with Python re through the real RegexNamedArgumentParser / ArgSpec",
+}
